@@ -599,6 +599,10 @@ class Fn:
 
     def _const(self, c):
         k = c.get("kind")
+        if "tree" in c and isinstance(c["tree"], dict) and (c.get("has_ptrs") or "bytes" not in c):
+            t_ = self._tree(c["tree"])
+            if t_ is not None:
+                return t_
         if k == "fn":
             return ("fnref", c["path"])
         if "promoted" in c and c.get("item"):
@@ -621,6 +625,18 @@ class Fn:
         if k == "unevaluated":
             return ("const", "unevaluated", c.get("item"))
         return ("const", k, c.get("text") or c.get("ty"))
+
+    def _tree(self, t):
+        """a constant allocation the fact extractor decoded (lookup tables): arrays and tuples of leaf constants"""
+        if t.get("tree") == "array":
+            el = [self._tree(x) for x in t.get("elems", [])]
+            return None if any(x is None for x in el) else ("array", tuple(el))
+        if t.get("tree") == "tuple":
+            el = [self._tree(x) for x in t.get("elems", [])]
+            return None if any(x is None for x in el) else ("tuple", tuple(el))
+        if "kind" in t:
+            return self._const(t)
+        return None
 
     def _place_expr(self, pl, seen, depth):
         l = pl["l"]
@@ -1283,6 +1299,14 @@ class Program:
             cache[path] = nf
         return cache[path]
 
+    def fn_unrolled(self, path):
+        """fn_loops(path) with loops over literal tables (array aggregates, decoded constant arrays) unrolled element by element"""
+        from . import unroll
+        cache = self.__dict__.setdefault("_unrolled", {})
+        if path not in cache:
+            cache[path] = unroll.unroll_literal_loops(self, self.fn_loops(path))
+        return cache[path]
+
     def fn_closure_calls(self, path):
         """fn(path) with direct calls of closure literals built in it (`let f = |x| ..; f(a)`) spliced in: a local
         closure called by name is a local helper function."""
@@ -1809,7 +1833,7 @@ def _thread_jumps(blocks, max_new=240, rounds=48):
             return False
         for st in b["stmts"]:
             if st["k"] == "assign":
-                if st["lhs"]["p"] or st["rv"]["k"] not in _PURE_RV:
+                if st["lhs"]["p"] or st["rv"]["k"] not in _PURE_RV + ("agg",):     # building a value has no effect: the block may be duplicated
                     return False
             elif st["k"] == "set_discr":
                 return False
@@ -2090,6 +2114,32 @@ def desugar_adaptors(prog, fn):
 
     for bi in range(len(fn.blocks)):
         t = blocks[bi]["term"]
+        if not blocks[bi].get("cleanup") and t["k"] == "call" and t.get("decl") in ("core::option::Option::<T>::map", "core::option::Option::<T>::and_then") \
+                and t.get("target") is not None and not t["dest"]["p"] and len(t.get("args", [])) == 2:
+            #   o.map(f)       ==  match o { Some(x) => Some(f(x)), None => None }
+            #   o.and_then(f)  ==  match o { Some(x) => f(x), None => None }
+            ca = callable_of(t["args"][1])
+            o_ = t["args"][0].get("move") or t["args"][0].get("copy")
+            if ca is not None and o_ is not None:
+                at = t.get("at")
+                dest = t["dest"]["l"]
+                dd, x_, r_ = new_local("isize"), new_local(), new_local()
+                unreach = new_block([], {"k": "unreachable", "at": at})
+                if t["decl"].endswith("::map"):
+                    after = new_block([assign(dest, opt_some({"move": {"l": r_, "p": []}}), at)], {"k": "goto", "target": t["target"], "at": at})
+                else:
+                    after = new_block([assign(dest, {"k": "use", "a": {"move": {"l": r_, "p": []}}}, at)], {"k": "goto", "target": t["target"], "at": at})
+                call_entry = emit_call(ca, [x_], r_, after, at)
+                some = new_block([assign(x_, {"k": "use", "a": {"move": {"l": o_["l"], "p": list(o_["p"]) + [{"as": "Some"}, {"f": "0", "adt": "core::option::Option"}]}}}, at)],
+                                 {"k": "goto", "target": call_entry, "at": at})
+                none = new_block([assign(dest, opt_none(), at)], {"k": "goto", "target": t["target"], "at": at})
+                sw = new_block([assign(dd, {"k": "discr", "place": o_, "ty": "core::option::Option<?>", "adt": "core::option::Option", "variants": {"0": "None", "1": "Some"}}, at)],
+                               {"k": "switch", "discr": {"move": {"l": dd, "p": []}}, "discr_ty": "isize", "arms": [{"value": 0, "target": none}, {"value": 1, "target": some}], "otherwise": unreach, "at": at})
+                nb = dict(blocks[bi])
+                nb["term"] = {"k": "goto", "target": sw, "at": at}
+                blocks[bi] = nb
+                done.append("%s@bb%d" % (t["decl"].rsplit("::", 1)[-1], bi))
+            continue
         if blocks[bi].get("cleanup") or t["k"] != "call" or not (t.get("decl") or "").startswith(ITER) or t.get("target") is None:
             continue
         kind = t["decl"][len(ITER):]
